@@ -168,6 +168,8 @@ class CallMixin(object):
             if fv.func is None or not isinstance(fv.func, types.FunctionType):
                 return self.call_method_builtin(st, fv.selfv, fv.name, args, kwargs, line)
             return self.call_function(st, fv.func, [fv.selfv] + args, kwargs, line=line)
+        if isinstance(fv, PyObj) and isinstance(fv.o, tuple) and fv.o and fv.o[0] == 'dyncontract':
+            return self.apply_contract(st, fv.o[1], None, [fv.o[2]] + list(args), kwargs, line)
         if isinstance(fv, PyObj) and isinstance(fv.o, tuple) and fv.o and fv.o[0] == 'classchoice':
             _, cnd, ca, cb = fv.o
             return self.branch(st, cnd, lambda s2: self.call_value(s2, ca, list(args), dict(kwargs), line),
@@ -483,6 +485,16 @@ class CallMixin(object):
         if o is getattr:
             name = self.const_str(args[1])
             if name is None:
+                # getattr(obj, <computed name>): a method chosen at run time; all candidates are abstracted by ONE assumed contract
+                # registered as '<module>.<Class>.<dynamic>' (its note says which family of methods it stands for)
+                h0 = args[0].hint if isinstance(args[0], V) else None
+                if h0 is not None and h0.kind == 'obj' and len(args) == 2:
+                    for cls in h0.classes:
+                        for k in cls.__mro__:
+                            c0 = self.registry.get('%s.%s.<dynamic>' % (k.__module__, k.__qualname__))
+                            if c0 is not None:
+                                self.trust('getattr with a computed name: every method it may select obeys the assumed contract %s' % c0.qual)
+                                return PyObj(('dyncontract', c0, args[0]))
                 raise EngineError('getattr with non-literal name')
             if len(args) == 3:
                 h = self.truthy(st, self.hasattr(st, args[0], name))
